@@ -27,3 +27,12 @@ Proof.
   - exists [RStatus Starting; RStatus Stopping]; vm_compute; auto.
   - exists [RStatus Starting; RStatus Stopping; RStatus Stopped]; vm_compute; tauto.
 Qed.
+
+(* lifecycle: a component that reports RecoverableError during its own Start gets NO automatic OK;
+   one that reports nothing does *)
+Example ex_lifecycle :
+  lc_events [LcStartBegin 1; LcReport 1 RecoverableError; LcStartOk 1; LcStartBegin 0; LcStartOk 0;
+             LcStopBegin 0; LcStopOk 0; LcStopBegin 1; LcStopErr 1]
+  = [(1, Starting); (1, RecoverableError); (0, Starting); (0, OK); (0, Stopping); (0, Stopped);
+     (1, Stopping); (1, PermanentError)].
+Proof. vm_compute. reflexivity. Qed.
